@@ -170,9 +170,13 @@ func c17seq(re *syntax.Regexp, b *strings.Builder) {
 	case syntax.OpCharClass:
 		if len(re.Rune) == 4 && re.Rune[0] == 0 && re.Rune[1] == '/'-1 && re.Rune[2] == '/'+1 && re.Rune[3] == utf8.MaxRune {
 			b.WriteString("N")
+		} else if len(re.Rune) == 0 {
+			b.WriteString("0") // the empty class: no character
 		} else {
 			fmt.Fprintf(b, "[%x]", re.Rune)
 		}
+	case syntax.OpNoMatch:
+		b.WriteString("0")
 	default:
 		fmt.Fprintf(b, "<%s>", re.Op.String())
 	}
@@ -287,9 +291,6 @@ func TestVerifC17(t *testing.T) {
 			if m != C17SpecAny(gs, p) && nOracle < 200 {
 				nOracle++
 				name := "set-matches-iff-some-pattern-matches"
-				if len(gs) == 0 {
-					name = "empty-set-matches-empty-path"
-				}
 				line("ORACLE", name, hexlist(gs), c17hx(p))
 			}
 		}
